@@ -1,6 +1,6 @@
 SPECIFICATION Spec
 CONSTANTS
- Fams = {"ip"}
+ Fams = {"ip", "big"}
  P <- PThorough
 INVARIANTS Theorems Emit
 CHECK_DEADLOCK FALSE
